@@ -177,7 +177,10 @@ GENERATORS = {
     'polygon2d_distance_to_point': _poly_point([]),
     'polygon2d_distance_from_edge_to_point': _poly_point([]),
     'polygon2d_is_convex': _poly_only(),
-    'polygon2d_is_rectangle': _poly_only([lambda g, s: g.rng.choice([0.0, 1e-9, 0.01, 0.3])]),
+    # (a tolerance of 0 or 1e-9 rad on a rectangle with rounded corners is decided by rounding:
+    # exact comparison only on the lattice stream)
+    'polygon2d_is_rectangle': _poly_only([lambda g, s: g.rng.choice(
+        [0.0, 1e-9, 0.01, 0.3] if s == 'lattice' else [1e-4, 0.01, 0.3])]),
     'polygon2d_inside_angles': _poly_only(),
     'polygon2d_outside_angles': _poly_only(),
     'polygon2d_perimeter': _poly_only(),
